@@ -25,10 +25,10 @@ struct St
 } st;
 std::set<const void *> *live_tracked;
 
-enum { P_TASK_BEFORE_CTOR_DONE = 0, P_FINISHED_TRUE, P_FINISHED_FALSE, P_GET_BLOCKED, P_GET_AFTER_FINISHED, P_DESTROY_BEFORE_DONE, P_BURST_GT_256, P_EXEC_ON_OTHER_THREAD, P_EXEC_ON_CALLER };
+enum { P_TASK_BEFORE_CTOR_DONE = 0, P_FINISHED_TRUE, P_FINISHED_FALSE, P_GET_BLOCKED, P_GET_AFTER_FINISHED, P_DESTROY_BEFORE_DONE, P_BURST_GT_256, P_EXEC_ON_OTHER_THREAD, P_EXEC_ON_CALLER, P_REINIT };
 const char *probe_names[] = {"task_started_before_owner_constructor_returned", "finished_polled_true", "finished_polled_false",
                              "get_really_blocked", "get_after_finished_true", "destroy_began_before_task_done", "burst_larger_than_pipe",
-                             "task_ran_on_other_thread", "task_ran_on_calling_thread", nullptr};
+                             "task_ran_on_other_thread", "task_ran_on_calling_thread", "tasking_system_reinitialised_with_tasks_in_flight", nullptr};
 const char *no_faults[] = {nullptr};
 
 void reset()
@@ -72,6 +72,11 @@ void do_plan(int tier)
   } else if (b < 5) {
     plan.burst = 1 + (int)sim_plan(8);
   }
+  plan.reinit_threads = 0;
+  if (plan.init_threads > 0 && sim_plan(5) == 0) {
+    plan.reinit_threads = (lane == LANE_INTERNAL ? 2 : 1) + (int)sim_plan(3);
+    sim_probe(P_REINIT);
+  }
   if (plan.burst > 256)
     sim_probe(P_BURST_GT_256);
   if (plan.burst > 40)
@@ -114,7 +119,7 @@ void describe(char *buf, size_t n)
   static const char *api[] = {"schedule", "async", "AsyncTask"};
   static const char *ty[] = {"int", "string", "vector<int>", "Tracked"};
   static const char *an[] = {"finished", "valid", "wait", "get", "idle"};
-  int k = snprintf(buf, n, "{\"init_threads\": %d, \"interleave\": %d, \"burst\": %d, \"items\": [", plan.init_threads, plan.interleave, plan.burst);
+  int k = snprintf(buf, n, "{\"init_threads\": %d, \"reinit_threads\": %d, \"interleave\": %d, \"burst\": %d, \"items\": [", plan.init_threads, plan.reinit_threads, plan.interleave, plan.burst);
   for (int i = 0; i < plan.nitems && k < (int)n - 300; i++) {
     const C02Item &it = plan.items[i];
     k += snprintf(buf + k, n - k, "%s{\"api\": \"%s<%s>\", \"task_work\": %d, \"ctor_work\": %d, \"script\": [", i ? "," : "", api[it.api],
